@@ -2414,7 +2414,11 @@ MANIFEST = dict(
     '(hexagon, 3-sector) runs matplotlib C++ and is replaced by a stated '
     'contract; np.argsort/np.max on |.| modelled as comparison sort on squared '
     'keys; divisors assumed non-zero in get_border_point; wrap-around cells, '
-    'Grid and plotting outside; known defects listed in known_findings.d/C19.json',
+    'Grid and plotting outside; known defects listed in known_findings.d/C19.json'
+    ' Concrete data-representation / scale / boundary probes of the real'
+    ' code (dtype, container and memory-layout variants, argument'
+    ' immutability, magnitudes) accompany the symbolic runs; they are'
+    ' differential runs, not solver verdicts.',
     technique='symbolic execution of real code on numpy object arrays of '
     'exact-real proxies, path forking, (cos,sin) as constrained real atoms with '
     'parity/addition normal forms, one-shot z3 QF_NRA (nlsat) per query, '
